@@ -51,6 +51,16 @@ def run_check(prop, tier, seed, replay=None):
             violations.append(("translator failed: %s" % e,
                                {"kind": "translator", "error": traceback.format_exc()}, False))
 
+    import facade
+    if prop in facade.OWNERS:
+        try:
+            tr = cov.get("translated")
+            tr = tr if isinstance(tr, dict) else ({"tables": tr} if tr else {})
+            tr.update(facade.regenerate())
+            cov["translated"] = tr
+        except Exception as e:
+            violations.append(("translator failed: %s" % e, {"kind": "translator", "error": traceback.format_exc()}, False))
+
     # 1. theorems
     pr = vlib.prove(mod.MODULE, mod.THEOREMS)
     cov["obligations"] = pr["obligations"]
@@ -68,7 +78,7 @@ def run_check(prop, tier, seed, replay=None):
     broken = list(pr["failed"])
     # further proof modules of the property, built and audited on their own (a table-dependent module that no longer
     # builds must not hide the theorems of the others)
-    for (xmod, xthms) in getattr(mod, "EXTRA_MODULES", []):
+    for (xmod, xthms) in list(getattr(mod, "EXTRA_MODULES", [])) + facade.extra_modules(prop):
         xp = vlib.prove(xmod, xthms)
         cov["obligations"] += xp["obligations"]
         cov["discharged"] += xp["discharged"]
@@ -99,6 +109,12 @@ def run_check(prop, tier, seed, replay=None):
         for v in ctx.get("violations", []):
             violations.append(v)
         assumptions += ctx.get("assumptions", [])
+
+    if prop in facade.OWNERS:
+        finfo, fviol = facade.golden(prop)
+        cov["facade_agreement"] = finfo
+        if fviol:
+            violations.append(fviol)
 
     # 3. a broken proof obligation is a violation even if the search found nothing
     if broken:
